@@ -388,6 +388,15 @@ func (e *wireExec) construct(i int, ts TokSpec) {
 			o.Violate("C08", "stream-seal-cid", fmt.Sprintf("ToSealedWriter of a %d-byte token: bytes equal to ToSealed: %v, CID is the hash of the bytes written: %v", len(w.cbor), bytes.Equal(sw.Bytes(), w.cbor), bytes.Equal(wc.Bytes(), harnessCID(sw.Bytes()))), nil)
 		}
 	}
+	// ... also when the sink is a bytes.Buffer that already holds something (a frame prefix)
+	reseed(e.t, e.seed, fmt.Sprint("seal", i))
+	bb := bytes.NewBuffer([]byte{0xca, 0xfe, 0x00})
+	if !guard(o, "ToSealedWriter", func() { wc, err = obj.ToSealedWriter(bb, ent.priv) }) && err == nil {
+		o.Eval("C08")
+		if !bytes.Equal(bb.Bytes()[3:], w.cbor) || !bytes.Equal(wc.Bytes(), harnessCID(w.cbor)) {
+			o.Violate("C08", "stream-seal-cid", "ToSealedWriter into a bytes.Buffer that already holds bytes: the CID is not the hash of the token written", map[string]string{"sink": "bytes.Buffer"})
+		}
+	}
 	reseed(e.t, e.seed, fmt.Sprint("seal", i))
 	if guard(o, "ToDagJson", func() { w.json, err = obj.ToDagJson(ent.priv) }) {
 		return
